@@ -240,7 +240,8 @@ def check(ctx):
     ctx.who_may_call(r"may::yield_now::set_co_para", {"may::scheduler::init_scheduler", "may::io::sys::timeout_handler", C + "::cancel", SUB, "may::io::sys::EventData::store_co"},
                      "result-injectors", "only the timer handlers, the subscribers' own deadline re-check (TimedOut) and cancel (Other) inject a result into a suspended coroutine", min_callers=2)
     # the subscriber's own TimedOut injection only behind `now() >= deadline` and a re-taken coroutine
-    ge = lambda a: a.kind == "truth" and a.truth is True and a.origin[0] == "call" and (a.origin[2] or "").endswith("is_some_and")
+    _sub = ctx.prog.fn(SUB)
+    ge = shared.deadline_passed_pred(ctx, _sub) if _sub is not None else (lambda a: False)
     ctx.guarded(SUB, Call(r"may::yield_now::set_co_para", transitive=False), ge, "deadline-recheck/timedout-only-after-deadline",
                 "Park::subscribe delivers Timeout itself only when the deadline recorded before arming has passed", pred_label="edge `deadline.is_some_and(|t| now() >= t)`")
     ctx.guarded(SUB, Call(r"may::yield_now::set_co_para", transitive=False), variant_of_call(re.escape(AO) + "take", "Some"), "deadline-recheck/only-if-retaken",
